@@ -1,6 +1,7 @@
 package main
 
 import (
+	"os"
 	"fmt"
 	"go/token"
 	"go/types"
@@ -764,6 +765,14 @@ func (fr *Frame) execBlock(b *ssa.BasicBlock, st *State) error {
 				return err
 			}
 			cs := c.(*Sc)
+			if os.Getenv("GOVC_DEBUG_BW") != "" && r.dry == 0 && strings.Contains(fr.fn.String(), "BitsWriterBatch") && cs.T != "true" && cs.T != "false" {
+				fmt.Fprintf(os.Stderr, "batch guard not literal in %s: %s := %s\n", fr.prefix, cs.T, r.ctx.defText(cs.T))
+				for _, tk := range tokens(r.ctx.defText(cs.T)) {
+					if strings.HasPrefix(tk, "t1.tag") {
+						fmt.Fprintf(os.Stderr, "    %s\n", r.ctx.defText(tk))
+					}
+				}
+			}
 			if cs.T != "false" {
 				tS := st.clone()
 				r.assume(tS, cs.T)
@@ -808,6 +817,9 @@ func (fr *Frame) execBlock(b *ssa.BasicBlock, st *State) error {
 // ghostAt proves and then assumes the ghost assertions anchored at key ("$read:T.f#k").
 func (fr *Frame) ghostAt(key string, st *State) error {
 	r := fr.run
+	var facts []string
+	var cls []*Clause
+	hard := false
 	for _, cl := range fr.contract.AtCall {
 		if fmt.Sprintf("%s#%d", cl.Call, cl.CallK) != key || !r.active(cl.Tags) {
 			continue
@@ -816,24 +828,87 @@ func (fr *Frame) ghostAt(key string, st *State) error {
 		if err != nil {
 			return fmt.Errorf("at %s %s: %v", key, cl.Label, err)
 		}
-		if cl.Kind == "assert" {
+		if cl.Kind == "assert" || cl.Kind == "cut" {
 			r.addOblig(&Oblig{Name: fr.oblName("assert", strings.TrimPrefix(key, "$read:")+"."+cl.Label), Kind: "assert", Func: r.eng.fnName(fr.fn), Label: cl.Label, Tags: cl.Tags, Text: cl.Text, Guard: st.guard, Goal: g})
 		}
-		r.assume(st, g)
-		// a cut of the form  p.f == e  also rebinds the location to e, so that later
-		// obligations see the specification's expression instead of the merged history
-		if b, ok := cl.E.(*EBin); ok && b.Op == "==" {
-			if sel, ok := b.X.(*ESel); ok {
-				env := &evalEnv{fr: fr, st: st, old: fr.entry}
-				base, err1 := fr.evalExpr(sel.X, env)
-				rhs, err2 := fr.evalExpr(b.Y, env)
-				if err1 == nil && err2 == nil {
-					fr.rebind(st, base, sel.Name, rhs)
-				}
-			}
+		if cl.Kind == "cut" {
+			hard = true
+		}
+		facts = append(facts, g)
+		cls = append(cls, cl)
+	}
+	if hard {
+		// a hard cut forgets the path so far: what is known afterwards is the function's
+		// preconditions and the facts proved at the cut (weaker assumptions: sound)
+		st.guard = r.ctx.define("g", sBool, and(append([]string{fr.entryGuard}, facts...)...))
+	} else {
+		for _, g := range facts {
+			r.assume(st, g)
 		}
 	}
+	for _, cl := range cls {
+		fr.rebindCut(cl.E, st)
+	}
 	return nil
+}
+
+// rebindCut: after a cut has been proved and assumed, conjuncts of the form  p.f == e  or
+// wN(w) == e  also rebind the location to e, so that later obligations see the
+// specification's expression instead of the merged history.
+func (fr *Frame) rebindCut(e Expr, st *State) {
+	if c, ok := e.(*ECall); ok {
+		if _, isMacro := fr.run.eng.specs.Macros[c.Fn]; isMacro {
+			fr.rebindFromExpr(e, st, &evalEnv{fr: fr, st: st, old: fr.entry})
+		}
+		return
+	}
+	b, ok := e.(*EBin)
+	if !ok {
+		return
+	}
+	if b.Op == "&&" {
+		fr.rebindCut(b.X, st)
+		fr.rebindCut(b.Y, st)
+		return
+	}
+	if b.Op != "==" {
+		return
+	}
+	env := &evalEnv{fr: fr, st: st, old: fr.entry}
+	switch lhs := b.X.(type) {
+	case *ESel:
+		base, err1 := fr.evalExpr(lhs.X, env)
+		rhs, err2 := fr.evalExpr(b.Y, env)
+		if err1 == nil && err2 == nil {
+			if u, ok := rhs.(*UInt); ok {
+				if cur, err := fr.selectField(base, lhs.Name, env); err == nil {
+					if cs, ok := cur.(*Sc); ok && cs.K == kBV {
+						rhs = bv(bvLit(u.V, cs.W), cs.W, cs.Signed)
+					}
+				}
+			}
+			fr.rebind(st, base, lhs.Name, rhs)
+		}
+	case *ECall:
+		if lhs.Fn == "wN" && len(lhs.Args) == 1 {
+			wv, err1 := fr.evalExpr(lhs.Args[0], env)
+			rhs, err2 := fr.evalExpr(b.Y, env)
+			if err1 != nil || err2 != nil {
+				return
+			}
+			ws, ok := wv.(*Sc)
+			rs, ok2 := rhs.(*Sc)
+			if !ok || !ok2 || ws.Ty == nil || rs.K != kBV || rs.W != 64 {
+				return
+			}
+			r := fr.run
+			stT, u := r.bwStruct(ws.Ty)
+			fw := fieldByName(u, "w")
+			sinkRef := r.ctx.selectOf(r.heap.get(st, fieldComp(stT, fw)+".ref", sArr(sRef, sRef)), ws.T)
+			h := r.heap.get(st, compSinkN, sortSinkN)
+			r.heap.setQuiet(st, compSinkN, sortSinkN, sto(h, sinkRef, r.ctx.define("cut", sBV(64), rs.T)))
+		}
+	}
 }
 
 // rebindFromExpr: for every top-level conjunct of an assumed formula that has the form
